@@ -477,7 +477,7 @@ def _freq_response_ref(ir, fft):
 
 
 def _transmit_and_equalize(case, ctx, o, used_eff, ch, x, tx, n_sym, tags,
-                           raise_on_error=True):
+                           raise_on_error=True, held=None):
     from pyphysim.modulators.ofdm import OfdmOneTapEqualizer
     fft = case["fft"]
     n = x.size
@@ -518,6 +518,23 @@ def _transmit_and_equalize(case, ctx, o, used_eff, ch, x, tx, n_sym, tags,
         ir.get_freq_response(fft + 3)
         ctx.label("freq_response_other_size_first")
     demod = o.demodulate(y[:tx.size])
+    if held is not None:
+        for what, arr in (("channel output", y),
+                          ("demodulated symbols", np.asarray(demod))):
+            held.append((what, arr, np.array(arr, copy=True)))
+    if case.get("xseed", 0) % 5 == 3:
+        # the caller normalises / plots with the array get_freq_response
+        # gave it and scribbles on it: the response object is not affected
+        hh = ir.get_freq_response(fft)
+        if isinstance(hh, np.ndarray) and hh.flags.writeable:
+            hh[...] = 1.0
+            ctx.label("freq_response_array_overwritten_by_caller")
+    demod_arg = demod
+    if case.get("xseed", 0) % 4 == 2 and np.ndim(demod) == 1 and \
+            np.size(demod) == n_sym * used_eff:
+        # the symbols as (OFDM symbols x used carriers), as the notebooks do
+        demod_arg = np.reshape(np.array(demod), (n_sym, used_eff))
+        ctx.label("equalize_2d_symbols")
     with np.errstate(divide="ignore", invalid="ignore"):
         # (a zero reported response - known finding - divides by zero; the
         # resulting inf/nan is judged below, the numpy warning is noise)
@@ -526,7 +543,7 @@ def _transmit_and_equalize(case, ctx, o, used_eff, ch, x, tx, n_sym, tags,
             equalizer = OfdmOneTapEqualizer(o)
         else:
             ctx.label("equalizer_created_before_set_parameters")
-        eq = np.asarray(equalizer.equalize_data(demod, ir))
+        eq = np.asarray(equalizer.equalize_data(demod_arg, ir)).reshape(-1)
     if eq.shape != (n_sym * used_eff,):
         raise Violation("equalized_length", "equalize_data returned shape %r, "
                         "expected (%d,)" % (eq.shape, n_sym * used_eff), tags)
@@ -611,15 +628,26 @@ def _check_chan(case, ctx):
     o, used_eff = _build_ofdm(case, tags, warm)
     ch = _build_channel(case, tags)
     cond_max = 0.0
+    held = []           # arrays the library handed out earlier, with copies
     for rep in range(int(case.get("n_tx", 1))):
         c = dict(case)
         if rep:
             c["xseed"] = (case["xseed"] + 7919 * rep) % (2 ** 31 - 1)
+            if case["xseed"] % 2:
+                # a second burst of ANOTHER length through the same objects
+                c["n"] = int(case["n"]) + used_eff
+                ctx.label("second_burst_other_length")
         x = _make_x(c)
-        tx, n_sym = _check_ofdm_structure(case, ctx, o, used_eff, x, tags)
-        _, cond = _transmit_and_equalize(case, ctx, o, used_eff, ch, x, tx,
-                                         n_sym, tags)
+        tx, n_sym = _check_ofdm_structure(c, ctx, o, used_eff, x, tags)
+        _, cond = _transmit_and_equalize(c, ctx, o, used_eff, ch, x, tx,
+                                         n_sym, tags, held=held)
         cond_max = max(cond_max, cond)
+        # what was handed out for the earlier bursts is still what it was
+        for what, arr, keep in held:
+            if arr.shape != keep.shape or not np.array_equal(arr, keep):
+                raise Violation("earlier_result_modified", "the %s returned "
+                                "for an earlier burst was changed by a later "
+                                "call" % what, tags)
     _common_labels(case, ctx, used_eff)
     ctx.label("memory=0" if memory == 0 else
               "memory=fft" if memory == case["fft"] else
